@@ -16,16 +16,15 @@ checks = {
  "C10": ("exploration", "ST-HIST with min-segment changes and discard; snapshot well-formedness + policy oracle from the pre-call snapshot", "§3 C10", "seeded single-client history simulation + free-list snapshot invariants and policy oracle"),
  "C12": ("exploration", "MT-SCHED incl. clone/drop/owned hand-over and teardown inside the simulation; FastTrack-style vector clocks with release sequences from the orderings the code passes", "§3 C12", "deterministic scheduler simulation + vector-clock happens-before checker over the recorded orderings"),
  "C13": ("exploration", "ST-HIST over clone/alloc/to-owned/detach/drop orders (even runs) and MT-SCHED over clone/drop/owned interleavings with teardown inside the simulation (odd runs)", "§3 C13", "seeded history + scheduler simulation with release-once accounting, refs and teardown-callback oracles"),
- "C16": ("exploration", "ST-HIST per-step layout oracles (remaining, reserved prefix, data offset, first allocation offset)", "§3 C16", "seeded single-client history simulation + layout oracles"),
- "C17": ("exploration", "ST-HIST with boundary-dense rewind positions vs an i128 reference clamp; clear() checked in place", "§3 C17", "seeded single-client history simulation + reference clamp"),
+ "C16": ("exploration", "CONFIG sweep (reserved 0..=4096 exhaustively x unify x 3 backends x 2 flavours x capacities around the prefix) + ST-HIST per-step layout oracles + the same history on Vec / anon / file arenas side by side with byte-identical memory()", "§3 C16", "seeded single-client history simulation + layout oracles"),
+ "C17": ("exploration", "ST-HIST with boundary-dense rewind positions vs an i128 reference clamp; clear() checked in place and differentially: cleared arena vs freshly constructed arena under the same subsequent history", "§3 C17", "seeded single-client history simulation + reference clamp"),
  "C18": ("exploration", "TRUNC: unsync histories with truncate(n) on 3 backends; before/after snapshots, later allocations", "§3 C18", "seeded single-client history simulation with backing-store change (truncate) as a generated fault"),
  "C20": ("exploration", "ST-HIST with discard_freelist / increase_discarded / set_minimum_segment_size anywhere; snapshot-based accounting", "§3 C20", "seeded single-client history simulation + accounting oracle"),
 }
-pending = {
- "C06": "check not built yet (CRASH scenario pending); no claim until it exists",
- "C09": "check not built yet (CORRUPT scenario pending); no claim until it exists",
- "C11": "check not built yet (DIFF scenario pending); no claim until it exists",
-}
+pending = {}
+checks["C06"] = ("fault_enumeration", "CRASH: every atomic step of every operation of a file-backed history is a crash point (all of them per history in the thorough tier, every third plus operation boundaries in the quick tier); image written to a fresh file and opened with the real map_mut; post-crash workload under a per-call step budget", "§3 C06", "crash-point enumeration at atomic-step granularity + reopen + post-crash workload (deterministic simulation)")
+checks["C09"] = ("fault_enumeration", "CORRUPT: per base file one identification byte x all 256 values / every truncation length / garbage files, each x 4 open variants x 3 capacity choices x expected freelist/magic right or wrong; read-only sessions of mutating safe calls; expected outcome computed from the statement, refused opens must leave the file bytes unchanged", "§3 C09", "stored-byte fault enumeration on arena files + read-only session simulation")
+checks["C11"] = ("exploration", "DIFF: one seeded operation sequence over the whole single-thread-usable trait surface executed in lock-step on sync::Arena (with spurious weak-CAS failures) and unsync::Arena as the executable reference model; equal observation tuples after every step", "§3 C11", "differential simulation against the single-threaded arena as executable reference model")
 na = {
  "C14": "pure function of the call arguments and one privately owned (offset, capacity, len) triple: no schedule, fault, crash point or shared history enters it, so deterministic simulation with fault injection has nothing to decide (DESIGN.md §4)",
  "C15": "pure function of (bytes, allocated(), offset); histories only produce contents; nothing for a scheduler or fault injector to decide (DESIGN.md §4)",
